@@ -49,6 +49,13 @@ impl<T: Scalar> Outcome<T> {
         g.only_cuts = Some(vec![]); // log goals see the real multiplicative structure, no abstraction
         self.goals.push(g);
     }
+    /// twin decided in log space
+    pub fn twin_log(&mut self, name: impl Into<String>, l: T, rel: Rel, r: T) {
+        let mut g = goal(name, l, rel, r);
+        g.loglin = true;
+        g.only_cuts = Some(vec![]);
+        self.twins.push(g);
+    }
     /// disjunctive goal: at least one of the relations holds
     pub fn prove_any(&mut self, name: impl Into<String>, mut rels: Vec<(T, Rel, T)>) {
         let (l, rel, r) = rels.remove(0);
